@@ -370,7 +370,7 @@ def started_version(data, pkt_index):
     if (((s[1] & 0x0f) << 8) | s[2]) > 1021: return None
     return (s[5] >> 1) & 31
 
-def reset_packets(data, pid):
+def reset_packets(data, pid, malformed=False):
     """indices of the packets on `pid` in which a section starts (valid pointer_field) with fewer than 3 of its bytes left in
     the packet: the section header straddles the packet boundary, SectionPacketConsumer resets the whole chain (finding F9)"""
     out = []
@@ -382,8 +382,10 @@ def reset_packets(data, pid):
         pl = p.payload()
         if pl is None or len(pl) < 1: continue
         ptr = pl[0]; sd = pl[1:]
-        if ptr > 0 and ptr >= len(sd): continue          # malformed pointer_field: not a valid stream, not this class
-        if 0 < len(sd) - ptr < 3: out.append(k)
+        if ptr > 0 and ptr >= len(sd):
+            if malformed: out.append(k)                  # pointer_field out of range: the chain is reset as well
+            continue                                     # (not a valid stream: not part of the F9 class)
+        if (0 if malformed else 1) <= len(sd) - ptr < 3: out.append(k)
     return out
 
 def history_judge(case, impl_line, prop):
@@ -415,6 +417,7 @@ def history_judge(case, impl_line, prop):
     shared_ever = set()       # elementary pids that two program maps listed at the same time (finding F7)
     stale = {}                # pid -> (table pid that dropped it, forbidden request kind)
     prev_last = {}            # table pid -> last packet of the previous transmission on it
+    resets_all = {}; last_dmg = {}
     assigned = {}             # pid -> the request of the table application that listed it last (the later application wins)
     applied_first = {}        # table pid -> first packet of the transmission last applied (or last re-applied)
     resets = {}               # table pid -> packets in which a section header straddles the packet boundary (F9)
@@ -431,8 +434,13 @@ def history_judge(case, impl_line, prop):
             cons = table_constructs(rc["first"] + (1 if shared else 0), rc["last"], pid)
             if rc["kind"] == "dmg":
                 sv = started_version(data, rc["first"])
-                if sv is not None: started_not_applied.setdefault(pid, set()).add(sv)
+                if sv is not None: started_not_applied.setdefault(pid, set()).add(sv); last_dmg[pid] = rc["first"]
                 continue
+            if started_not_applied.get(pid):
+                # a start packet that resets the chain (pointer_field out of range, or fewer than 3 section bytes behind it) since
+                # the damaged start makes the chain forget the version that start left behind
+                if pid not in resets_all: resets_all[pid] = reset_packets(data, pid, malformed=True)
+                if any(last_dmg.get(pid, -1) < k < rc["first"] for k in resets_all[pid]): started_not_applied[pid] = set()
             ideal_applies = ideal_ver.get(pid) != ver
             if ideal_applies:
                 exp = ([("nit", p) if n == 0 else ("pmt", p, n) for (n, p) in rc["pat"]] if pid == 0
